@@ -15,6 +15,7 @@ GNext ==
                              \/ (CopyConstruct(a, b) /\ op' = Op("copy_construct", a, b))
                              \/ (MoveConstruct(a, b) /\ op' = Op("move_construct", a, b))
                              \/ (Swap(a, b) /\ op' = Op("swap", a, b))
+                             \/ (AssignObject(a, b) /\ op' = Op("assign_object", a, b))
 GenSpec == GInit /\ [][GNext]_gvars
 View == ptr
 Edge == PrintT(<<"@@GEN@@", ToJson([f |-> ToString(ptr), o |-> op', t |-> ToString(ptr')])>>)
